@@ -36,6 +36,7 @@ def parseStep (j : Json) : Except String Step := do
       else throw "w"
     | "r" => return .nsRead (← a[1].getNat?)
     | "m" => return .memoCall (← a[1].getNat?)
+    | "v" => if h3 : a.size = 3 then return .localValue (← a[1].getNat?) (← a[2].getNat?) else throw "v"
     | "z" => return .scratchUse (← natsOf a[1])
     | _ => throw "step"
   else throw "step"
